@@ -179,16 +179,18 @@ class Interp:
         raise Unsupported('unaryop')
 
     def ev_BoolOp(self, n, env):
-        # short-circuit value semantics are only needed as truth values in these kernels
-        if isinstance(n.op, ast.And):
-            for v in n.values:
-                if not self.truth(self.ev(v, env)):
-                    return False
-            return True
+        # Python value semantics: `a or b` yields a if it is truthy else b (objects / None / tuples pass through);
+        # solver-valued operands are decided by a fork and the result is their truth value
+        is_and = isinstance(n.op, ast.And)
+        last = None
         for v in n.values:
-            if self.truth(self.ev(v, env)):
-                return True
-        return False
+            last = self.ev(v, env)
+            t = self.truth(last)
+            if z3.is_expr(last) or isinstance(last, (bool, SBytes)):
+                last = t
+            if t != is_and:
+                return last
+        return last
 
     def ev_Compare(self, n, env):
         a = self.ev(n.left, env)
@@ -372,6 +374,11 @@ class Interp:
             raise _Return(self.ev(st.value, env) if st.value else None)
         elif isinstance(st, ast.Pass):
             pass
+        elif isinstance(st, ast.Try):
+            # handlers are for exceptions of collaborators, which are stubs here and do not raise
+            self.run_block(st.body, env)
+            self.run_block(st.orelse, env)
+            self.run_block(st.finalbody, env)
         elif isinstance(st, ast.Continue):
             raise _Continue()
         elif isinstance(st, ast.Raise):
